@@ -2080,8 +2080,11 @@ class ImportManager:
     self.imports = []
     self.module_selectors = {}
     self.names = set()
-    # Prefer to order `from` style imports first.
-    for statement in sorted(imports, key=lambda s: (s.module, not s.is_from)):
+    # Prefer to order `from` style imports first. (The alias makes the order
+    # total, so that which of several imports of one module is kept does not
+    # depend on the iteration order of `imports`, which may be a set.)
+    for statement in sorted(
+        imports, key=lambda s: (s.module, not s.is_from, s.alias or '')):
       self.add_import(statement)
 
   @property
